@@ -43,6 +43,12 @@ def gen_case(rng):
     if r < 0.45:
         # transient interruptions, all within tolerance: delivered = uninterrupted stream
         for i, c in enumerate(chunks):
+            if rng.random() < 0.3:
+                # the reader hands over the bytes and io.EOF in one Read call (legal for an io.Reader)
+                steps.append("de:" + c.hex())
+                if i < len(chunks) - 1 and rng.random() < 0.5:
+                    steps.append(rng.choice(["eof", "timeout"]))
+                continue
             steps.append("d:" + c.hex())
             if i < len(chunks) - 1:
                 k = rng.choice([1, 1, 2])
@@ -95,7 +101,7 @@ def run(res, args):
     # expected: sequential framing of the bytes supplied before the stop
     streams = []
     for script, tol, cls, nbytes in gens:
-        data = b"".join(bytes.fromhex(s[2:]) for s in script.split(";") if s.startswith("d:"))
+        data = b"".join(bytes.fromhex(s.split(":", 1)[1]) for s in script.split(";") if s.startswith(("d:", "de:")))
         streams.append(data[:nbytes])
     exp_lines, e = common.run_lines(common.MODEL_BIN, "stream", ["stream %d debug %s" % (framing.T0, gen.hx(s)) for s in streams])
     if impl and exp_lines:
